@@ -85,6 +85,13 @@ func Generate(r *sim.Rng, prop, tier string, idx int) *sim.Case {
 	default:
 		genC07(g, c, tier)
 	}
+	if prop == "C02" && backendKind == 1 && c.Mode == "conc" && r.Chance(1, 4) {
+		// lost messages: the n-th burst of commands of the run (any connection) or its reply is
+		// lost and the connection breaks
+		for i := 0; i < 1+r.Intn(2); i++ {
+			c.Faults = append(c.Faults, sim.Fault{Seam: "net", Kind: sim.Pick(r, "req_lost", "reply_lost", "reply_lost"), Ord: int64(2 + r.Intn(40))})
+		}
+	}
 	if r.Chance(1, 6) {
 		// stalled threads: a goroutine that could run (here: a caller inside WaitForVersionChange)
 		// does not get a processor for a while
@@ -141,6 +148,41 @@ func genC02(g *gen, c *sim.Case, tier string) {
 	}
 	if r.Chance(1, 4) {
 		c.Knobs["shared_client"] = 1
+	}
+	if r.Chance(1, 8) {
+		// two phases with a long pause in between: racing writes some of which carry a short
+		// expiry (and a read that pins their order), then - after everything short-lived has
+		// expired, marked by a tick in the history - reads and creates. What survives the pause
+		// is decided by the write that came last, whoever raced with it
+		delete(c.Knobs, "net_latency_ns")
+		c.Knobs["ttl_race"] = 1
+		k := keys[0]
+		short := int64(300 * time.Millisecond)
+		for t := 0; t < 2+r.Intn(2); t++ {
+			task := sim.Task{Name: fmt.Sprintf("t%d", t)}
+			for i := 0; i < 1+r.Intn(2); i++ {
+				d := sim.Pick(r, short, short, int64(0), int64(time.Hour))
+				switch r.Intn(5) {
+				case 0:
+					task.Ops = append(task.Ops, sim.Op{K: "put", S: k, V: g.val(), D: d})
+				case 1, 2:
+					g.nval++
+					task.Ops = append(task.Ops, sim.Op{K: "putmany", S: k, V: fmt.Sprintf("x%d", g.nval), D: d})
+				case 3:
+					task.Ops = append(task.Ops, sim.Op{K: "create", S: k, V: g.val(), D: d})
+				default:
+					task.Ops = append(task.Ops, sim.Op{K: "get", S: k})
+					task.Ops = append(task.Ops, sim.Op{K: "cas", S: k, V: g.val(), N: 0, D: d})
+				}
+			}
+			task.Ops = append(task.Ops, sim.Op{K: "get", S: k})
+			task.Ops = append(task.Ops, sim.Op{K: "jump", D: int64(3 * time.Second)})
+			task.Ops = append(task.Ops, sim.Op{K: sim.Pick(r, "get", "get", "create"), S: k, V: g.val(), D: int64(time.Hour)})
+			task.Ops = append(task.Ops, sim.Op{K: "get", S: k})
+			c.Tasks = append(c.Tasks, task)
+		}
+		c.Tasks = append(c.Tasks, sim.Task{Name: "zt", Ops: []sim.Op{{K: "jump", D: int64(1500 * time.Millisecond)}, {K: "tick"}}})
+		return
 	}
 	// swarm: some runs use only a random subset of the operation kinds, which makes
 	// particular races (create/delete, cas/cas, putmany/get ...) much denser
